@@ -124,4 +124,14 @@ theorem print_build_roundtrip_needs_NoH2 : ∃ s', build (schemaToDoc h2Schema) 
     simp only [e, jEq_refl] at hb
     simp at hb
 
+/-! ### structured values of a JSON-like custom scalar (fixes I7 + C11-1) -/
+
+/-- `{a: "1", b: [true, "x", null, "FOO"], c: {}}` as the default of a custom scalar -/
+def jsonValue : J := .obj [("a", .str "1"), ("b", .arr [.bool true, .str "x", .null, .str "FOO"]), ("c", .obj [])]
+
+/-- the printer writes it as an object literal (`{a: 1, b: [true, "x", null, "FOO"], c: {}}`) and the transparent
+    scalar reads that literal back as the same value -/
+theorem custom_structured_roundtrip :
+    (match customLit jsonValue with | some lit => jEq (untypedLit lit) jsonValue | none => false) = true := by decide
+
 end PyGql.Props.C12
